@@ -397,6 +397,75 @@ def r3_layering(a, tier):
             rep.fail(fc.qualname, f'find-common:{"hard" if hard else "soft"}', f'{"hard" if hard else "soft"} override of a config holding '
                      f'a=1, b="x", c=None, d=[1] with {settings} keeps {got}; documented: {want} (a soft override never lets None / '
                      f'Undefined / an empty container erase a value, an empty string or False does apply; unknown names are dropped)', fc.loc)
+    # the algebra of Config, interpreted on a stand-in configuration with three settings
+    from ..modelinterp import Bound as _Bound, ClassRef as _ClassRef, Hook as _Hook
+    CFG = 'tatsu.util.configs.Config'
+
+    def mk(**kw):
+        return _Stub2(CFG, **kw)
+
+    def _fields(o):
+        return [Obj(name=k, init=True) for k in o._attrs]
+
+    def _replace(o, **kw):
+        return _Stub2(o._cls, **{**o._attrs, **kw})
+    dc = _Hook(None, replace=_Hook(_replace), fields=_Hook(_fields), is_dataclass=_Hook(lambda o: True))
+
+    def run(me, mname, *args, **kw):
+        fn_ = a.ct.lookup(CFG, mname)
+        it_ = _MI2(a, {'Undefined': und, 'dataclasses': dc, 'hasattr': _Hook(lambda o, n: isinstance(o, _Stub2) and n in o._attrs),
+                       'getattr': _Hook(lambda o, n, *d: o._attrs.get(n, *d) if isinstance(o, _Stub2) else (d[0] if d else None)),
+                       'type': _Hook(lambda o: _ClassRef(o._cls) if isinstance(o, _Stub2) else type(o))})
+        try:
+            r = it_.call_bound(_Bound(me, fn_), list(args), kw)
+        except Unsupported as e:
+            raise AnalysisError(f'cannot interpret Config.{mname}: {e}') from e
+        return dict(r._attrs) if isinstance(r, _Stub2) else r
+    base = dict(a=1, b=None, c='x')
+    algebra = [
+        ('override(a=None, b=2, c=Undefined)', lambda: run(mk(**base), 'override', a=None, b=2, c=und), dict(a=1, b=2, c='x'),
+         'an explicit setting wins, None / Undefined leave the value alone'),
+        ('hard_override(a=None)', lambda: run(mk(**base), 'hard_override', a=None), dict(a=None, b=None, c='x'), 'a directive may set None'),
+        ('override_config(other: a=None, b=5, c="y")', lambda: run(mk(**base), 'override_config', mk(a=None, b=5, c='y')), dict(a=1, b=5, c='y'),
+         'the other configuration wins where it says something, and only there'),
+        ('merge(a=9, b=7)', lambda: run(mk(**base), 'merge', a=9, b=7), dict(a=1, b=7, c='x'), 'merge only fills what is unset'),
+        ('merge_config(other: a=9, b=7, c=None)', lambda: run(mk(**base), 'merge_config', mk(a=9, b=7, c=None)), dict(a=1, b=7, c='x'), 'merge only fills what is unset'),
+    ]
+    for what, thunk, want, why in algebra:
+        got = thunk()
+        ok = got == want
+        rep.add({'config': 'a=1, b=None, c="x"', 'operation': what, 'result': repr(got), 'want': repr(want), 'ok': ok})
+        if not ok:
+            rep.fail(f'{CFG}.{what.split("(")[0]}', f'algebra:{what.split("(")[0]}', f'{what} on a configuration a=1, b=None, c="x" gives {got}; required {want} ({why}): '
+                     f'the layering defaults < compile-time settings < directives < parse-time settings rests on these operations', a.ct.lookup(CFG, what.split('(')[0]).loc)
+    # Config.new(config, **settings): defaults, then the configuration object, then the explicit settings
+    newf = a.ct.lookup(CFG, 'new')
+    order: list = []
+    default_cfg = _Stub2(CFG, a=0, b=0, c=0)
+    default_cfg._attrs['override_config'] = _Hook(lambda other, d=default_cfg: (order.append('config'), d)[1])
+    default_cfg._attrs['override'] = _Hook(lambda d=default_cfg, **kw: (order.append('settings'), d)[1])
+    try:
+        _MI2(a, {'dataclasses': dc, 'isinstance': _Hook(lambda o, c: True)}).call_bound(_Bound(_Hook(lambda: default_cfg), newf), [mk(a=2)], {'b': 3})
+    except Unsupported as e:
+        raise AnalysisError(f'cannot interpret Config.new: {e}') from e
+    ok = order == ['config', 'settings']
+    rep.add({'Config.new(config, **settings)': order, 'ok': ok})
+    if not ok:
+        rep.fail(newf.qualname, 'new-order', f'Config.new applies {order}; required: the configuration object first, then the explicit settings (which win)', newf.loc)
+    # @@namechars implies nameguard
+    pc = a.p.func('tatsu.config.ParserConfig.__post_init__')
+    for nc, ng, want_ng in (('-', None, True), ('', None, None), ('', False, False)):
+        me = _Stub2('tatsu.config.ParserConfig', namechars=nc, nameguard=ng, ignorecase=None, keywords=None, memoization=True, left_recursion=True, semantics=None,
+                    _check_deprecations=_Hook(lambda: None), _compile_comments=_Hook(lambda: None))
+        try:
+            _MI2(a, {}).call_bound(_Bound(me, pc), [], {})
+        except Unsupported as e:
+            raise AnalysisError(f'cannot interpret ParserConfig.__post_init__: {e}') from e
+        ok = me._attrs.get('nameguard') == want_ng
+        rep.add({'ParserConfig': f'namechars={nc!r}, nameguard={ng}', 'nameguard_after': me._attrs.get('nameguard'), 'want': want_ng, 'ok': ok})
+        if not ok:
+            rep.fail(pc.qualname, f'namechars-nameguard:{nc!r}:{ng}', f'a configuration with namechars={nc!r} and nameguard={ng} ends with nameguard={me._attrs.get("nameguard")}; '
+                     f'required {want_ng} (@@namechars implies the name guard)', pc.loc)
     # api.compile
     comp = a.p.func('tatsu.api.api.compile')
     gen_ctor = [n for n in walk_no_defs(comp.node) if isinstance(n, ast.Call) and dotted(n.func).endswith('TatSuParserGenerator')]
